@@ -39,6 +39,7 @@ pub enum G {
     Cust(usize, bool),
     Probe(i64),
     CfgJust,
+    CfgJustR,
     Then(B, B),
     IThen(B, B),
     ThenI(B, B),
@@ -171,6 +172,7 @@ impl G {
             "cust" => G::Cust(us(&a[1]), a[2].as_bool().unwrap_or(false)),
             "probe" => G::Probe(a[1].as_i64().unwrap_or(0)),
             "cfgjust" => G::CfgJust,
+            "cfgjustr" => G::CfgJustR,
             "then" => G::Then(bx(&a[1])?, bx(&a[2])?),
             "ithen" => G::IThen(bx(&a[1])?, bx(&a[2])?),
             "theni" => G::ThenI(bx(&a[1])?, bx(&a[2])?),
